@@ -81,4 +81,21 @@ def render (pre : Bytes) (bs : List WBlock) : Bytes := pre ++ bs.flatMap renderB
     bytes, idle gaps free of 0x3C (so no block marker can begin or end inside one) -/
 def WBlock.wf (b : WBlock) : Prop := 3 ≤ b.lead ∧ b.payload.length ≤ 254 ∧ 0x3C ∉ b.gap
 
+/-- the start-of-block pattern a reader looks for: three 0x01, 3C, 5A -/
+def marker : Bytes := [1, 1, 1, 0x3C, 0x5A]
+
+/-- does `l` begin with the pattern? -/
+def beginsWithMarker : Bytes → Bool
+  | 1 :: 1 :: 1 :: 0x3C :: 0x5A :: _ => true
+  | _ => false
+
+/-- an idle stretch: the pattern occurs nowhere in it (any other bytes, 3C included) -/
+def idle : Bytes → Bool
+  | [] => true
+  | x :: xs => !beginsWithMarker (x :: xs) && idle xs
+
+/-- the weakest well-formedness of a written tape: leaders of at least three 0x01, payloads of at most 254 bytes, idle
+    stretches in which no start-of-block pattern occurs -/
+def WBlock.wfIdle (b : WBlock) : Prop := 3 ≤ b.lead ∧ b.payload.length ≤ 254 ∧ idle b.gap = true
+
 end Moto.Spec.K7
